@@ -27,10 +27,34 @@ DIMS = ["entropy", "rand", "set_order", "clock_pid", "buffers", "prehistory"]
 BUILTIN_RESERVED = ["router", "system", "permit", "interface", "domain-search", "esp-seal", "snmp", "trunk", "neighbor"]
 
 
-def _pre_items(r, plan_words, secrets, n):
+def _pre_items(r, plan_words, secrets, n, plan_opts=None):
     items = []
     for _ in range(n):
         c = r.random()
+        if plan_opts is not None and r.random() < 0.3:
+            # an earlier run over the SAME input in this process, with other options (library use)
+            o2 = dict(plan_opts)
+            o2["salt"] = GC.gen_salt(r, True)
+            for f in ("pwd", "ip"):
+                if r.random() < 0.4:
+                    o2[f] = not o2[f]
+            if r.random() < 0.5:
+                o2["words"] = (list(plan_words) if plan_words and r.random() < 0.7 else ["kiwi", "zzother"])
+            if r.random() < 0.3:
+                o2["reserved"] = [w.lower() + "-core" for w in plan_words[:2]] or None
+            if not (o2["pwd"] or o2["ip"] or o2["words"] or o2["as"]):
+                o2["pwd"] = True
+            o2["undo"] = False
+            items.append({"kind": "run", "step": {"entry": r.choice(["files", "file", "io"]), "opts": o2, "in": "in",
+                                                  "out": "other/same%d" % len(items), "dump": None}, "bad": False})
+            continue
+        if plan_words and r.random() < 0.3:
+            # shares a sensitive word with the observed run, but reserves tokens that contain it
+            w = r.choice(plan_words)
+            items.append({"kind": "anonymizer", "opts": {"pwd": False, "ip": False, "salt": GC.gen_salt(r, True),
+                                                         "words": [w if r.random() < 0.5 else w.lower()],
+                                                         "reserved": [w.lower() + "-core"], "undo": False}})
+            continue
         reserved = []
         if r.random() < 0.6 and plan_words:
             reserved.append(r.choice(plan_words).lower())
@@ -78,6 +102,11 @@ def generate(seed, tier="quick", mode=None, child=False, **kw):
     ctx = GC.make_ctx(r, o)
     paths, dirs, hidden = GC.gen_tree(r, r.randint(1, 4), hidden=False, dirs=r.random() < 0.5)
     files = [{"path": p, "lines": GC.gen_lines(r, ctx, secrets, o, r.randint(1, 10))} for p in paths]
+    for w in (o["words"] or [])[:2]:
+        if r.random() < 0.6:
+            fl = r.choice(files)
+            fl["lines"].insert(r.randint(0, len(fl["lines"])), {"segs": [["lit", " set group "], ["near", w.lower() + "-core"],
+                                                                        ["lit", " active"]], "eol": "\n"})
     # content-level failures may be part of the scenario (identical in P1 and P2)
     if r.random() < 0.15:
         fl = r.choice(files)
@@ -90,7 +119,7 @@ def generate(seed, tier="quick", mode=None, child=False, **kw):
     k2["listing_key"] = k1["listing_key"]          # listing order is part of the input here
     plan = {"family": NAME, "seed": seed, "mode": "c13", "files": files, "dirs": dirs, "secrets": secrets, "opts": o,
             "entry": r.choice(["cli", "cli", "files", "file", "io"]), "k1": k1, "k2": k2, "dims": dims, "nosalt": nosalt,
-            "pre": _pre_items(r, o["words"] or [], secrets, r.randint(1, 4)),
+            "pre": _pre_items(r, o["words"] or [], secrets, r.randint(1, 4), plan_opts=o),
             "dump": "map" if o["ip"] and r.random() < 0.5 else None,
             "child_hashseed": r.randint(1, 4_000_000_000) if child else None}
     return plan
@@ -309,7 +338,10 @@ def _gen_c10(r, seed, child=False):
             else:   # near misses: not exactly the reserved word, so the listed word inside must go
                 near = r.choice([tok.capitalize(), tok + "1", "x" + tok, tok.upper()])
                 lines.append({"segs": [["lit", "description "], ["near", near], ["lit", " end"]], "eol": "\n"})
-        elif c < 0.85:
+        elif c < 0.78:
+            lines.append({"segs": [["lit", " set group "], ["near", r.choice(o["words"]).lower() + "-core"], ["lit", " active"]],
+                          "eol": "\n"})
+        elif c < 0.88:
             lines.append(G.lit_line(r.choice(G.BENIGN)))
         elif o["pwd"]:
             ln = GC.secret_line(r, ctx, secrets, kinds=("keep",))
@@ -327,11 +359,16 @@ def _gen_c10(r, seed, child=False):
             p = list(low)
             r.shuffle(p)
             orders.append(p)
-    pre = _pre_items(r, o["words"], secrets, r.choice([0, 1, 1, 2, 3]))
+    pre = _pre_items(r, o["words"], secrets, r.choice([0, 1, 1, 2, 3]), plan_opts=o)
     for it in pre:
         if it["kind"] == "run":
-            it["kind"] = "anonymizer"
-            it["opts"] = it.pop("step")["opts"]
+            if it["step"]["in"] == "in":
+                it["kind"] = "lines"
+                it["opts"] = it.pop("step")["opts"]
+                it["text"] = "__SAME_INPUT__"
+            else:
+                it["kind"] = "anonymizer"
+                it["opts"] = it.pop("step")["opts"]
             it.pop("bad", None)
     return {"family": NAME, "seed": seed, "mode": "c10", "files": [{"path": "in/a.cfg", "lines": lines}], "dirs": ["in"],
             "secrets": secrets, "opts": o, "entry": r.choice(["cli", "files", "io", "file"]), "orders": orders, "pre": pre,
@@ -353,18 +390,23 @@ def _check_c10(plan):
     reserved = builtin | {w.lower() for w in (o["reserved"] or [])}
     disk = {"dirs": ["in"], "files": {"in/a.cfg": G.render_file(plan["files"][0]["lines"], "a", plan["secrets"])}}
     lines = plan["files"][0]["lines"]
+    same_text = disk["files"]["in/a.cfg"].decode("utf-8", "replace")
+    pre_items = copy.deepcopy(plan["pre"])
+    for it in pre_items:
+        if it.get("text") == "__SAME_INPUT__":
+            it["text"] = same_text
     execs = []
     for n, order in enumerate(plan["orders"]):
         execs.append((order, []))
-    if plan["pre"]:
-        execs.append((plan["orders"][0], plan["pre"]))
-        execs.append((plan["orders"][-1], list(reversed(plan["pre"]))))
+    if pre_items:
+        execs.append((plan["orders"][0], pre_items))
+        execs.append((plan["orders"][-1], list(reversed(pre_items))))
     fmap = {}            # (matched text) -> pseudonym
     steps = 0
     digest_items = []
     outs = []
     for hs in plan.get("child_hashseeds", []):
-        execs.append((("child", hs), plan["pre"]))
+        execs.append((("child", hs), pre_items))
     probes["child_runs"] = 0
     for order, pre in execs:
         step = {"entry": plan["entry"], "opts": o, "in": "in/a.cfg", "out": "out.cfg", "dump": None}
